@@ -64,6 +64,17 @@ PROPS = {
         assumptions=["step weights within 0..100", "metadata other than the two conversion annotations is copied verbatim (not modelled)"],
         explanation="round-trip and totality theorems over all objects of the modelled shape",
     ),
+    "C11": dict(
+        engines=[dict(name="brexec", quick=1200, thorough=60000, shard=400, trivial_tags=["status-unchanged"])],
+        rule="seeded generator of (BatchRelease spec: plan, batchPartition incl. nil and beyond the plan, failureThreshold, deleting, finalizer; persisted status: every phase incl. "
+             "empty/Initial/unknown, batch incl. out of range, every batch state incl. unknown, stale/current/empty plan hash, stale observed replicas/revisions; CloneSet: "
+             "missing, unstable generation, promoted, scaled, rolled back, new template, progress below/at/above the batch, current partition absent/100%/target/arbitrary, "
+             "control annotation mine/other/none); one real BatchReleaseReconciler.Reconcile per case on the fake client; non-trivial = the model changes the status; "
+             "distinct = distinct input JSON",
+        trusted=["hook VerifNewReconciler (build tag verif)", "the plan hash is abstracted to current/stale/empty by the harness"],
+        assumptions=["partition-style CloneSet without rollout-id and without rollback-in-batches (labels: C12; other kinds' arithmetic: C01/C07)"],
+        explanation="four clause theorems over all statuses/observations; the same booleans are evaluated on the real reconcile's result",
+    ),
     "C12": dict(
         engines=[dict(name="labelpatch", quick=400, thorough=20000, shard=400, trivial_tags=["no-write"])],
         rule="seeded structured generator of (plan, replicas, current batch, rollout-id, update revision, pods with revision labels/"
@@ -123,6 +134,14 @@ MANIFEST_TEXT = {
         note="Pass-through groups are opaque digests (a dropped field inside one changes the digest and is caught by the correspondence, but the model does not "
              "name it). A v1beta1 step with traffic and no replicas reads back with replicas = traffic (v1alpha1's meaning of a weight-only step); stated in beta_rmw.",
         design_ref="DESIGN.md section 9, C20"),
+    "C11": dict(
+        text="Proof: for one BatchRelease reconcile on a partition-style CloneSet and for EVERY spec, persisted status and workload observation: Ready is entered only when "
+             "the observed workload satisfies the readiness predicate for that batch, the batch cursor never advances beyond batchPartition, Completed is reported only by "
+             "the reconcile whose Finalize released the workload, and a changed plan or scaled workload makes a Ready batch fall back. The Gallina reconcile (sync + execute + "
+             "finalizer handling) is compared with the real Reconcile on generated states on every run; the same clause booleans are evaluated on the real result.",
+        note="Other workload kinds and the blue-green Finalize retry (candidate finding F6) are not yet in this model; 'only while' is per reconcile (the executor re-checks a "
+             "Ready batch on every reconcile, the lag between a workload change and the next reconcile is not modelled).",
+        design_ref="DESIGN.md section 9, C11"),
     "C12": dict(
         text="Proof: Properties/C12.v states, for every pod list, plan, replica count, batch and every label string, that batch-label writes of "
              "the PatchPodBatchLabel model go only to live new-revision pods not yet labelled for this release, one label per pod, at most "
